@@ -138,6 +138,9 @@ def run(ctx: Ctx) -> None:
     import sys
     deep = [">" * 300 + " a", "- " * 200 + "a", "[" * 500 + "a" + "]" * 500, "*" * 2000, "![" * 300 + "a" + "](b)" * 300,
             "> - " * 150 + "x", "1. " * 120 + "x", "<" * 1000, "`" * 999 + "a", "\\" * 3001]
+    from .c20 import FAM, NEST_FAM
+    deep += [FAM[f](d) for f in sorted(NEST_FAM) for d in ((450, 1500) if quick else (350, 450, 700, 1500, 4000))]
+    deep += ["[![" * 400 + "a" + "](b)](c)" * 400, "*[" * 600 + "a" + "](b)*" * 600, "![[" * 400 + "a" + "]](b)" * 400]
     for src in deep:
         for mn in (1, 20, 100):
             md = MarkdownIt("commonmark", {"maxNesting": mn})
